@@ -22,6 +22,8 @@ Fixpoint notin (k : str) (l : list str) : bool :=
 Fixpoint nodupb (l : list str) : bool :=
   match l with [] => true | x :: r => notin x r && nodupb r end.
 
+Definition is_err {A} (x : outcome A) : bool := match x with Ok _ => false | _ => true end.
+
 Section Dom.
 Context {T : Type}.
 
@@ -62,6 +64,15 @@ Fixpoint dom (d : det T) : bool :=
   match d with
   | DItems l => forallb dom_item l && nodupb (map item_key l)
   | DSubs l => forallb dom l && existsb (fun s => negb (plain_single s)) l
+  | DMixed => false
+  end.
+
+(* some item lost its original values (disable_conversion_to_plain) *)
+Fixpoint has_disabled (d : det T) : bool :=
+  match d with
+  | DItems l => existsb (fun i => match i_orig i with None => true | _ => false end) l
+  | DSubs l => existsb has_disabled l
+  | DMixed => false
   end.
 
 Definition dom_dets (r : dets T) : bool := forallb (fun nd => dom (snd nd)) (ds_dets r).
@@ -90,5 +101,6 @@ Fixpoint inv (d : det T) : Prop :=
   | DItems l => Forall inv_item l
   | DSubs l => (fix go (l : list (det T)) : Prop :=
                   match l with [] => True | x :: r => inv x /\ go r end) l
+  | DMixed => False
   end.
 End Dom.
